@@ -153,13 +153,20 @@ def analyse(ck):
     ok = len(kec) == 2 and len(frb) == 2 and len(capg) >= 1 and len(pin) == 2
     det = [(T.show(g["cond"], maxdepth=4)[:140], g["fail_when"], sorted(g["outcome"])) for g in mv.gt]
     if ok:
-        # size caps cover both slices (loop over [("verifier-only", verifier_bytes), ("common", common_bytes)]) and precede hashing
-        capok = mv.ok_succ(capg[0])
-        lp = [c for c, v, a in __import__("rules.provers", fromlist=["dep_conditions"]).dep_conditions(mv, capg[0]["bb"])]
-        both = "verifier_bytes" in T.show(capg[0]["cond"], maxdepth=8) and "common_bytes" in T.show(capg[0]["cond"], maxdepth=8)
-        ok = both and all(cfg.reaches(mv.body, capg[0]["bb"], kb) and not cfg.reaches(mv.body, kb, capg[0]["bb"]) for kb, _ in kec)
-        hdr = [a for c, v, a in __import__("rules.provers", fromlist=["dep_conditions"]).dep_conditions(mv, capg[0]["bb"]) if "discr(elem" in T.show(c, maxdepth=2)]
-        ok = ok and bool(hdr) and all(cfg.dominates(mv.body, hdr[0], kb) for kb, _ in kec)
+        # size caps cover BOTH byte slices and precede hashing: one guard in a loop over [(label, verifier_bytes), (label, common_bytes)],
+        # or one guard per slice (straight-line, or in a helper that was expanded in place)
+        slices = set(mv.param(i) for i in range(1, mv.body.argc + 1) if re.match(r"^&(\'\w+ )?\[u8\]$", mv.body.local_ty(i) or ""))
+        dep = __import__("rules.provers", fromlist=["dep_conditions"]).dep_conditions
+        covered = set()
+        before = True
+        for g in capg:
+            covered |= set(s_ for s_ in T.walk(g["cond"]) if s_ in slices)
+            hdr = [a for c, v, a in dep(mv, g["bb"]) if "discr(elem" in T.show(c, maxdepth=2)]
+            for kb, _ in kec:
+                # every path to the hash passed this size test (the test block, or the header of the loop that runs it, dominates the hash),
+                # and no hash happens before it
+                before = before and (cfg.dominates(mv.body, g["bb"], kb) or (bool(hdr) and cfg.dominates(mv.body, hdr[0], kb))) and not cfg.reaches(mv.body, kb, g["bb"])
+        ok = len(slices) == 2 and covered == slices and before and all(g["outcome"] <= {"err"} for g in capg)
         # pins: Ne(keccak256(X_bytes), CANONICAL const) and both precede both from_bytes
         for g in pin:
             oks = mv.ok_succ(g)
@@ -167,7 +174,8 @@ def analyse(ck):
         last_pin = max(pin, key=lambda g: cfg.rpo(mv.body).index(g["bb"]))
         ok = ok and all(cfg.dominates(mv.body, mv.ok_succ(last_pin), fbb) for fbb, _ in frb)
         pins = sorted(T.show(guards.reject_condition(g)[1], maxdepth=3) + "|" + T.show(guards.reject_condition(g)[2], maxdepth=3) for g in pin)
-        ok = ok and any("verifier_bytes" in p_ for p_ in pins) and any("common_bytes" in p_ for p_ in pins)
+        pinned = set(s_ for g in pin for s_ in T.walk(g["cond"]) if s_ in slices)
+        ok = ok and pinned == slices
     ob.add({"C17"}, ok, "CMP+DOM", "verifier-crate/caps-pins-before-parse", "WormholeVerifier::new_from_bytes: both size caps precede hashing, and both keccak256 pins succeed before either from_bytes", mv.loc0, det)
     prof = mv.calls(lambda t: t.get("name") == "ensure_loaded_matches_canonical_leaf_profile")
     ob.add({"C17"}, len(prof) == 1 and guards.continue_block(mv.body, prof[0][0]) is not None and all(cfg.dominates(mv.body, guards.continue_block(mv.body, prof[0][0]), bi) for bi in ok_def_blocks(mv.body)),
